@@ -355,6 +355,7 @@ def generate(seed, index):
         "observe": rng.random() < 0.6,
         "abort": rng.random() < 0.35,
         "lifetimes": rng.random() < 0.4,
+        "shared_constants": rng.random() < 0.35,
     }
     nclients = rng.randint(1, 6)
     n_evals = rng.randint(5, 40)
@@ -363,7 +364,7 @@ def generate(seed, index):
     faults = {"F1_readdir_order": 0, "F3_history_order": 0, "F4_reapply_same": 0,
               "F5_reapply_other": 0, "F6_arg_permutation": 0, "F7_rescan": 0,
               "F9_client_interleave": 0, "F11_observation_between_evaluations": 0,
-              "F12_abort_planned": 0, "F13_object_dropped": 0}
+              "F12_abort_planned": 0, "F13_object_dropped": 0, "F14_shared_argument_lists": 0}
     # evaluables: one per cfg, created in the setup phase under a chosen listing order
     evs = {}  # ev id -> cfg id
     ev_of_cfg = {}
@@ -540,6 +541,25 @@ def generate(seed, index):
                 used_pairs.append((robjs[oid], cid))
                 budget -= 1
     client_ops[0] = setup + client_ops[0]
+    shared_lists = {}
+    if swarm["shared_constants"]:
+        # F14: the test module keeps its name lists in constants; every builder call of the session
+        # that lists the same names is handed the very same list object (in the order of its first
+        # use: a different order is an F6 permutation anyway)
+        users = {}
+        for ops in client_ops:
+            for op in ops:
+                a = op.get("a") or []
+                if op["op"] == "call" and a and isinstance(a[0], list) and all(isinstance(x, str) for x in a[0]):
+                    key = "\x00".join(sorted(a[0]))
+                    name = users.setdefault(key, [f"K{len(users)}", list(a[0]), 0])
+                    name[2] += 1
+                    op["a"] = [{"$shared": name[0]}] + a[1:]
+        for key in sorted(users):
+            name, vals, n = users[key]
+            shared_lists[name] = vals
+            if n > 1:
+                faults["F14_shared_argument_lists"] += 1
     schedule = [0] * len(setup)
     rest = []
     for c, ops in enumerate(client_ops):
@@ -564,7 +584,7 @@ def generate(seed, index):
     return {
         "prop": "C15", "seed": seed, "index": index, "world_group": index // GROUP,
         "world": wd["world"], "cfgs": cfgs, "clients": client_ops, "schedule": schedule,
-        "isolated": isolated, "atomic_builds": True,
+        "isolated": isolated, "atomic_builds": True, "shared_lists": shared_lists,
         "meta": {"swarm": swarm, "faults": faults, "specs": specs, "archs": archs,
                  "n_setup": len(setup)},
     }
